@@ -49,6 +49,11 @@ func checkC20(c *Ctx) {
 			if n == "os.Rename" {
 				nRename++
 			}
+			if n == "os.Remove" || n == "os.RemoveAll" || n == "os.Truncate" {
+				p := pathOf(call.Call.Args[0])
+				r.Check(strings.Contains(p, "getRandString("), "C20.1", fnName(f)+": "+n+" only on temporary files", call.Pos(), fnName(f), firstN(p, 100),
+					n+" is applied to "+firstN(p, 80)+", a name without the fresh temporary component: if this is the ClientConf's final name there is a window (and every later failure) in which no complete configuration file exists on disk")
+			}
 		})
 	}
 	if nCreate == 0 {
@@ -135,7 +140,22 @@ func checkC20(c *Ctx) {
 				}
 			}
 		}
-		r.Check(okRB, "C20.3", "SetClientConf: a.config = previous pointer on the error edge of saveClientConf", f.Pos(), fnName(f), "store guarded by err != nil; value loaded before the assignment",
+		if okRB && save != nil {
+			// and on EVERY error path: from the save, a return is not reachable without the rollback unless the error is nil
+			nilEdges := edgesEstablishing(f, atomMatcher(errAtoms(save, true)...))
+			isRollback := func(in ssa.Instruction) bool {
+				st, ok := in.(*ssa.Store)
+				if !ok {
+					return false
+				}
+				o, fld, ok := fieldOwner(st.Addr)
+				return ok && o == "assets.assets" && fld == "config"
+			}
+			if esc, _ := reach(f, save, isReturn, isRollback, nilEdges); esc {
+				okRB = false
+			}
+		}
+		r.Check(okRB, "C20.3", "SetClientConf: a.config = previous pointer on the error edge of saveClientConf", f.Pos(), fnName(f), "store guarded by err != nil; value loaded before the assignment; must-pass on every error path",
 			"when storing the new ClientConf fails the new configuration stays in effect in memory although the file still holds the previous one")
 	}
 
